@@ -146,12 +146,76 @@ pub struct RawItem {
     pub sval: String,
 }
 
+/// how a flatten field holds its child (below an optional `Option<_>`), i.e. which CloseValue impl
+/// produces the closed child and through which forwarding `InflectableEntry<NS>` impl it is written
+#[derive(Clone, Copy, Debug, PartialEq, Eq, PartialOrd, Ord)]
+pub enum Wrap {
+    /// `Child` itself
+    Owned,
+    /// support `WRef<Child>`, closes to `&'static ChildEntry`
+    Ref,
+    /// support `WBox<Child>`, closes to `Box<ChildEntry>`
+    Box,
+    /// support `WArc<Child>`, closes to `Arc<ChildEntry>`
+    Arc,
+    /// support `WCow<Child>`, closes to `Cow<'static, ChildEntry>`
+    Cow,
+    /// `ForceFlag<Child, NoFlags>` (metrique-core CloseValue), closes to `ForceFlag<ChildEntry, _>`
+    ForceFlag,
+    /// `WithDimensions<Child, 1>` (by-value parents only)
+    WithDims,
+    /// `Mutex<Child>`, closes to `Option<ChildEntry>` (always `Some`)
+    Mutex,
+    /// `Arc<Child>`, closes to the bare `ChildEntry`
+    StdArc,
+    /// `#[metrics(flatten, no_close)] Arc<<Child as CloseValue>::Closed>` (by-value parents only)
+    NoCloseArc,
+    /// `Cow<'static, <Child as CloseValue>::Closed>` (CloseValue for Cow is the identity; by-value parents only)
+    RealCow,
+}
+
+impl Wrap {
+    pub const ALL: [Wrap; 11] = [
+        Wrap::Owned, Wrap::Ref, Wrap::Box, Wrap::Arc, Wrap::Cow, Wrap::ForceFlag, Wrap::WithDims, Wrap::Mutex,
+        Wrap::StdArc, Wrap::NoCloseArc, Wrap::RealCow,
+    ];
+    pub fn tok(self) -> &'static str {
+        match self {
+            Wrap::Owned => "",
+            Wrap::Ref => "r",
+            Wrap::Box => "b",
+            Wrap::Arc => "a",
+            Wrap::Cow => "c",
+            Wrap::ForceFlag => "f",
+            Wrap::WithDims => "d",
+            Wrap::Mutex => "m",
+            Wrap::StdArc => "s",
+            Wrap::NoCloseArc => "n",
+            Wrap::RealCow => "w",
+        }
+    }
+    fn from_tok(c: char) -> Option<Wrap> {
+        Wrap::ALL.iter().copied().find(|w| w.tok().chars().next() == Some(c))
+    }
+    /// needs a parent that closes its fields by value (the root)
+    pub fn by_value_only(self) -> bool {
+        matches!(self, Wrap::WithDims | Wrap::NoCloseArc | Wrap::RealCow)
+    }
+    /// the forwarding impl in the way does not override `sample_group` (metrique-core close_value_impls.rs)
+    pub fn drops_sample_group(self) -> bool {
+        matches!(self, Wrap::ForceFlag | Wrap::WithDims)
+    }
+    pub fn needs_clone(self) -> bool {
+        matches!(self, Wrap::Cow | Wrap::RealCow)
+    }
+}
+
 #[derive(Clone, Debug, PartialEq)]
 pub enum Field {
     Plain { ident: String, name: Option<String>, unit: Option<String>, sg: bool, v: FVal },
     Ignore,
     Timestamp,
-    Flatten { pfx: Option<Pfx>, optional: bool, present: bool, child: Box<Def> },
+    Flatten { pfx: Option<Pfx>, optional: bool, wrap: Wrap, present: bool, child: Box<Def> },
     FlattenEntry { items: Vec<RawItem>, sg: Vec<(String, String)> },
 }
 
@@ -236,11 +300,12 @@ impl Field {
             }
             Field::Ignore => out.push("G".into()),
             Field::Timestamp => out.push("T".into()),
-            Field::Flatten { pfx, optional, present, child } => {
+            Field::Flatten { pfx, optional, wrap, present, child } => {
                 out.push("F".into());
                 out.push(pfx_tok(pfx));
                 out.push(if *present { "1" } else { "0" }.into());
-                out.push(if *optional { "1" } else { "0" }.into());
+                let w = format!("{}{}", if *optional { "o" } else { "" }, wrap.tok());
+                out.push(if w.is_empty() { "-".into() } else { w });
                 child.encode_into(out);
             }
             Field::FlattenEntry { items, sg } => {
@@ -402,8 +467,23 @@ impl<'a> Parser<'a> {
             "F" => {
                 let pfx = self.pfx()?;
                 let present = self.boolean()?;
-                let optional = self.boolean()?;
-                Field::Flatten { pfx, optional: optional || !present, present, child: Box::new(self.def()?) }
+                let w = self.next()?;
+                let w = match w {
+                    "0" | "-" => "",
+                    "1" => "o",
+                    w => w,
+                };
+                let optional = w.starts_with('o');
+                let rest = w.strip_prefix('o').unwrap_or(w);
+                let wrap = match rest.len() {
+                    0 => Wrap::Owned,
+                    1 => Wrap::from_tok(rest.chars().next()?)?,
+                    _ => return None,
+                };
+                if !present && !optional {
+                    return None;
+                }
+                Field::Flatten { pfx, optional, wrap, present, child: Box::new(self.def()?) }
             }
             "R" => {
                 let n: usize = self.next()?.parse().ok()?;
@@ -566,6 +646,10 @@ pub struct SpecOut {
     pub items: Vec<Item>,
     pub sg: Vec<(String, String)>,
     pub sg_chainless: Vec<(String, String)>,
+    /// `sg_chainless` without the pairs that lie below a `ForceFlag` / `WithDimensions` flatten
+    /// (classification of the wrapper defect only)
+    pub sg_wrapper_dropped: Vec<(String, String)>,
+    below_dropping_wrapper: u32,
 }
 
 pub fn spec(def: &Def) -> SpecOut {
@@ -595,6 +679,9 @@ fn spec_def(def: &Def, inh: Style, chain: &str, out: &mut SpecOut) {
                 out.items.push(Item { name: name.clone(), metric: false, value: value.clone(), unit: String::new() });
                 if t.sg {
                     out.sg.push((name, value.clone()));
+                    if out.below_dropping_wrapper == 0 {
+                        out.sg_wrapper_dropped.push((chainless.clone(), value.clone()));
+                    }
                     out.sg_chainless.push((chainless, value));
                 }
             }
@@ -615,18 +702,28 @@ fn spec_field(f: &Field, style: Style, chain: &str, a: &Attrs, out: &mut SpecOut
             if *sg {
                 let value = observe(v).map(|o| o.1).unwrap_or_default();
                 out.sg.push((full, value.clone()));
+                if out.below_dropping_wrapper == 0 {
+                    out.sg_wrapper_dropped.push((spec_name(style, "", a, ident, name), value.clone()));
+                }
                 out.sg_chainless.push((spec_name(style, "", a, ident, name), value));
             }
         }
         Field::Ignore | Field::Timestamp => {}
-        Field::Flatten { pfx, present, child, .. } => {
+        // however the field holds the child (Box, Arc, &, Cow, Option, ForceFlag, …): same style, same chain
+        Field::Flatten { pfx, present, child, wrap, .. } => {
             if *present {
                 let chain2 = match pfx {
                     None => chain.to_string(),
                     Some(Pfx::Exact(e)) => format!("{chain}{e}"),
                     Some(Pfx::Infl(p)) => format!("{chain}{}", style.apply_prefix(p)),
                 };
+                if wrap.drops_sample_group() {
+                    out.below_dropping_wrapper += 1;
+                }
                 spec_def(child, style, &chain2, out);
+                if wrap.drops_sample_group() {
+                    out.below_dropping_wrapper -= 1;
+                }
             }
         }
         Field::FlattenEntry { items, sg } => {
@@ -638,6 +735,9 @@ fn spec_field(f: &Field, style: Style, chain: &str, a: &Attrs, out: &mut SpecOut
             }
             out.sg.extend(sg.iter().cloned());
             out.sg_chainless.extend(sg.iter().cloned());
+            if out.below_dropping_wrapper == 0 {
+                out.sg_wrapper_dropped.extend(sg.iter().cloned());
+            }
         }
     }
 }
